@@ -297,6 +297,16 @@ func RawSearchPQMResults(req *structs.SegmentSearchRequest, fileParallelism int6
 	}
 	defer sharedReader.Close()
 
+	if aggs != nil && aggs.GroupByRequest != nil && !aggs.UsedByTimechart() {
+		// As in the raw search (applyAggregationsToResult): the records of a segment
+		// without one of the group by columns belong to no group.
+		cname, ok := checkIfGrpColsPresent(aggs.GroupByRequest, sharedReader.MultiColReaders[0])
+		if !ok {
+			log.Errorf("qid=%v, RawSearchPQMResults: cname: %v was not present", qid, cname)
+			return
+		}
+	}
+
 	queryMetrics := &structs.QueryProcessingMetrics{}
 	runningBlockManagers := &sync.WaitGroup{}
 	filterBlockRequestsChan := make(chan uint16, spqmr.GetNumBlocks())
